@@ -10,6 +10,8 @@ type vJ struct {
 	keys [][]int32
 	vals []*vJ
 	raw  []byte // token text of the whole value
+	rawKeys [][]byte // object: key tokens including the quotes
+	unq  bool   // expectation only: the text layout shows this value without its quotes
 }
 
 type vJP struct {
@@ -131,10 +133,12 @@ func (p *vJP) value(depth int) *vJ {
 			if p.pos >= len(p.b) || p.b[p.pos] != '"' {
 				return p.fail()
 			}
+			kstart := p.pos
 			k, ok := p.str()
 			if !ok {
 				return p.fail()
 			}
+			v.rawKeys = append(v.rawKeys, p.b[kstart:p.pos])
 			p.ws()
 			if p.pos >= len(p.b) || p.b[p.pos] != ':' {
 				return p.fail()
